@@ -312,12 +312,91 @@ def run(ck):
         reported.add(key)
         ck.violation(key, what, rep, found)
 
+    # ------------------------------------------------------------------ diff(...) sub-expressions
+    # (Evaluator::treatDiff + DifferentiatedFunctionExpr.cxx; not modelled in Lean).  The derivative the
+    # formula language itself offers, diff(f,v), must have the value of differentiate(v) of f (whose rules
+    # are tied to the proved model above); differentiating, copying or resolving a formula that contains
+    # diff(...) must keep doing so.  Implementation only; a crash is a violation.
+    dstat = {"formulas": 0, "compared": 0, "undecided": 0, "different": 0, "crash": 0}
+    gd = L.Gen(rng, tab, diff_only=True, safe_only=True)
+    dforms = [("y*x**2", ["x", "y"]), ("x**2*y", ["x", "y"]), ("z*y*x**3", ["x", "y", "z"]), ("sin(x*y)+T*x", ["T", "x", "y"]),
+              ("exp(y)*cos(x)", ["x", "y"]), ("x**3", ["x"]), ("y/x+x*x*y", ["x", "y"]), ("T*z*y*x", ["T", "x", "y", "z"])]
+    for _ in range(60 if ck.quick else 1500):
+        f, names = with_var(gd, 3)
+        names = [n for n in names if n in ("x", "y", "z", "T")]
+        if names and "?" not in f and "[" not in f and "b_2" not in f and "Q" not in f:
+            dforms.append((f, names))
+    dlines, dplan = [], []       # dplan: (label, formula, i_lhs, i_rhs, tol)
+    for f, names in dforms:
+        dstat["formulas"] += 1
+        env = L.random_point(rng, ["x", "y", "z", "T", "Q"])
+        for n in ("x", "y", "z", "T"):
+            env[n] = rng.choice([0.75, 1.25, 1.5, 2.0, 0.5, 2.5])
+        env["Q"] = 1.0
+        b = L.bind_str(env)
+        v = rng.choice(names)
+        w = rng.choice(names)
+
+        def add(label, lhs, rhs, tol=1e-9):
+            dlines.extend([lhs, rhs])
+            dplan.append((label, f, len(dlines) - 2, len(dlines) - 1, tol, env, v, w))
+        add("value of diff(f,%s) vs differentiate(%s) of f" % (v, v), "V %s;diff(%s,%s)" % (b, f, v), "E %s;%s;%s" % (v, b, f))
+        add("d/dQ of Q*diff(f,%s) vs differentiate(%s) of f" % (v, v), "E Q;%s;Q*diff(%s,%s)" % (b, f, v), "E %s;%s;%s" % (v, b, f))
+        add("value of diff<2>(f,%s) vs differentiate(%s) of diff(f,%s)" % (v, v, v), "V %s;diff<2>(%s,%s)" % (b, f, v), "E %s;%s;diff(%s,%s)" % (v, b, f, v))
+        # second derivative against a central finite difference of the first derivative's values
+        h = 1e-5
+        em, ep = dict(env), dict(env)
+        em[w] -= h
+        ep[w] += h
+        dlines.extend(["E %s;%s;diff(%s,%s)" % (w, b, f, v), "E %s;%s;%s" % (v, L.bind_str(em), f), "E %s;%s;%s" % (v, L.bind_str(ep), f)])
+        dplan.append(("differentiate(%s) of diff(f,%s) vs finite difference of differentiate(%s) of f" % (w, v, v), f, len(dlines) - 3, (len(dlines) - 2, len(dlines) - 1, h), 2e-4, env, v, w))
+    dimpl, dcr = L.run_lines(ck, exe, dlines, timeout=1800)
+    ck.log("diff(...) stream: %d lines, %d crashes" % (len(dlines), len(dcr)))
+    dreported = 0
+    for (label, f, i, j, tol, env, v, w) in dplan:
+        a = dimpl[i] if i < len(dimpl) else "missing"
+        used = {k: x for k, x in env.items() if re.search(r"\b%s\b" % k, f)}
+        if a.startswith("CRASH"):
+            if "abandoned" in a:
+                continue
+            dstat["crash"] += 1
+            disagreements += 1
+            if dreported < 3:
+                dreported += 1
+                ck.violation("diff:crash:" + L_pattern(f), "evaluating '%s' at %s crashes the process (%s)" % (dlines[i].split(";")[-1], used, a[6:90]),
+                             {"formula": dlines[i].split(";")[-1], "request": dlines[i], "point": used, "implementation": a,
+                              "site": "src/Math/DifferentiatedFunctionExpr.cxx / Evaluator::treatDiff",
+                              "stderr_tail": next((c[3] for c in dcr if c[0] == i), "")}, True)
+            continue
+        va = fval(a)
+        if isinstance(j, tuple):
+            fm, fp = (fval(dimpl[k]) if k < len(dimpl) else None for k in j[:2])
+            vb = (fp - fm) / (2 * j[2]) if fm is not None and fp is not None else None
+            rhs_desc = "central finite difference"
+        else:
+            vb = fval(dimpl[j]) if j < len(dimpl) else None
+            rhs_desc = dlines[j]
+        if va is None or vb is None or va != va or vb != vb or abs(vb) > 1e8:
+            dstat["undecided"] += 1
+            continue
+        dstat["compared"] += 1
+        if abs(va - vb) <= tol * max(1.0, abs(va), abs(vb)):
+            continue
+        dstat["different"] += 1
+        disagreements += 1
+        if dreported < 3:
+            dreported += 1
+            ck.violation("diff:value:" + L_pattern(f),
+                         "%s: '%s' gives %r at %s, the derivative is %r" % (label, dlines[i].split(";", 1)[1] if dlines[i][0] == "V" else dlines[i][2:], va, used, vb),
+                         {"formula": f, "variable": v, "second_variable": w, "point": used, "request": dlines[i], "code_value": va,
+                          "reference": rhs_desc, "reference_value": vb, "site": "Evaluator::treatDiff / Evaluator::getVariablesNames / DifferentiatedFunctionExpr.cxx"}, True)
+
     ck.notes.append("observation: constants created by the differentiation rules are exported with std::to_string (six decimals, e.g. d/dx x**2.5000001 is exported as (2.5)*std::pow(x,1.500000)), so the exported derivative differs slightly from differentiate()->getValue() (1e-7 .. 1e-5 relative seen); such cases are recognised by perturbing those literals by half a unit of the sixth decimal and counted as 'same-to-string' in export_clause, not as a violation of C14 (getValue is exact)")
     ck.assumptions += [
         "M: the model's rule set is tied to the C++ by differential execution (every rule of the table on its own, seeded random formulas); the function table is regenerated from the real FunctionGeneratorManager on every run (T2) and the set of functions with a rule is compared with the model's",
         "soundness is proved over ℝ (Mathlib HasDerivAt) for trees without ExponentDerivative nodes (every parsed formula) at points satisfying explicit side conditions (non-zero divisors, positive bases of variable powers, arguments in the open domain, conditions that do not switch at the point); floating-point evaluation of the derivative is libm, not modelled",
         "the constant tests of the code (`applyChainRule`, constant exponent) are evaluated with doubles; the theorem assumes them exact (hypothesis OpsSound)",
-        "not modelled: derivatives of external functions / diff(...) sub-expressions; second derivatives through ExponentDerivative",
+        "not modelled in Lean: derivatives of external functions; diff(...) sub-expressions are checked on the implementation only (value of diff(f,v) against differentiate(v) of f, whose rules are tied to the model; second derivatives against finite differences); second derivatives through ExponentDerivative",
     ]
     return ck.finish({
         "evaluations": len(reqs), "distinct_nontrivial": len(distinct),
@@ -326,6 +405,7 @@ def run(ck):
         "traces_validated_against_impl": len(reqs) - hist["skipped-by-model"],
         "streams": {"corpus": ncorpus, "rules": sum(1 for r in reqs if r[0] == "rule"), "directed": sum(1 for r in reqs if r[0] == "directed"), "derive": n_d, "unsupported": n_u, "value": n_e},
         "answers": hist, "error_kinds": errk, "export_clause": {"pairs": len(pairs), **xstat}, "generator": {"derive": g.stats, "value": ge.stats},
+        "diff_subexpressions": dstat,
         "rules_in_code": sorted(code_rules), "samples": samples,
     })
 
